@@ -670,14 +670,16 @@ def search_c12(results, tier, seed, broken):
                             hits.append(_hit(r, comp, streams, cid, "generators on %s differ from SHA3-512('GeneratorsChain' || kind || LE32 party) -> ChaCha -> rand point" % s["curve"]))
                         if not ped_ok:
                             hits.append(_hit(r, comp, streams, cid, "Pedersen bases on %s differ from (generator, rand point from ChaCha(SHA3-512(uncompressed generator)))" % s["curve"]))
+                        if len(v) >= 8 and v[7] != "-":
+                            hits.append(_hit(r, comp, streams, cid, "on %s an object with 65538 parties gives a high party index the wrong chain (expected the stream of label LE32(party)): %s" % (s["curve"], v[7])))
                         if not same_hist:
                             hits.append(_hit(r, comp, streams, cid, "an object grown through 3 -> 100 -> 7 -> cap differs from new(cap) on %s" % s["curve"]))
         if comp == "fixture" and hasattr(r, "fixture"):
             for cid, code, text in r.disagreements:
-                if cid.split()[0] in ("GENS", "GEN0", "PED"):
+                if cid.split()[0] in ("GENS", "GEN0", "GENHI", "PED"):
                     n += 1
                     hits.append(_fhit(r, cid, "%s: %s" % (cid, text)))
-            n += sum(1 for k in r.fixture["ref"] if k.split()[0] in ("GENS", "GEN0", "PED"))
+            n += sum(1 for k in r.fixture["ref"] if k.split()[0] in ("GENS", "GEN0", "GENHI", "PED"))
     return hits, {"searched": n, "hits": len(hits), "distinct_nontrivial": len(nontriv), "distribution": dict(dist),
                   "rule": "random histories (initial capacity 0..5, 0..3 parties, 0..5 requests in 0..23 incl. no-ops and decreasing ones, a serialisation round trip at a random point) and all views (n <= cap+1, m <= parties+1) on several objects, every real point named by the (kind, party, position) of an independently derived specification chain, compared with the model; value facts on 2 + 2*4*256 (thorough 2048) points per curve: pairwise distinct across G, H, parties and the Pedersen bases, non-identity, Valid::check and r*P = 0, equality with the independent derivation; digests of the first 1,2,8,64,256 generators per (curve, kind, party < 4) and the Pedersen bases against the reference revision's recording"}
 
@@ -790,6 +792,8 @@ def search_c05(results, tier, seed, broken):
                 continue
             dist["%s -> %s" % (kind, verdict)] += 1
             nontriv.add((kind, s["curve"], tag.split()[-3:][0]))
+            if kind == "extra-empty-constraint":
+                continue   # the committed values satisfy the deviating statement too: decided by C03 (relations), not by C05
             if kind == "none":
                 if verdict != 0:
                     hits.append(_hit(r, comp, streams, cid, "control case (verifier's statement = prover's) rejected: " + s["line"]))
@@ -819,7 +823,7 @@ PROPS = {
     "C03": {
         "prop_files": ["Properties/C03.v"], "run_files": ["Run/R1cs.v"],
         "level": "proof",
-        "components": lambda tier: [("r1cs", ["honest", "violate", "mutate", "mutfields", "mutsmall", "forced", "forge"], {})],
+        "components": lambda tier: [("r1cs", ["honest", "violate", "mutate", "mutfields", "mutsmall", "forced", "forge", "statement"], {})],
         "search": search_c03,
         "assumptions": ["field and module laws (hypotheses)", "challenges = oracle on the transcript history; the challenges the run inverts are non-zero (all_nz hypothesis)"],
     },
@@ -842,7 +846,7 @@ PROPS = {
     "C06": {
         "prop_files": ["Properties/C06.v"], "run_files": ["Run/R1cs.v"],
         "level": "proof",
-        "components": lambda tier: [("r1cs", ["honest", "cs", "mutate"], {})],
+        "components": lambda tier: [("r1cs", ["honest", "cs", "mutate", "forge"], {})],
         "search": search_c06,
         "assumptions": ["Merlin/STROBE + ChaCha + ScalarField::rand = one function RO of the operation history (random-oracle idealisation)",
                         "byte encodings of payloads are arkworks' serialize_uncompressed (checked by K6: decoded / re-materialised)"],
@@ -927,7 +931,7 @@ PROPS = {
         "assumptions": ["programs are interaction trees over the public ConstraintSystem API (no fabricated out-of-range Variables, no direct transcript challenges)"],
     },
     "C17": {
-        "prop_files": ["Properties/C17.v"], "run_files": ["Run/R1cs.v"],
+        "prop_files": ["Properties/C17.v"], "run_files": ["Run/R1cs.v", "Run/Shape.v"],
         "level": "proof",
         "components": lambda tier: [("r1cs", ["capgrid"], {})],
         "search": search_c17,
